@@ -326,7 +326,7 @@ func c15Checker(c *Ctx, f *Fn, isZip bool) {
 	type gateSpec struct {
 		name     string
 		m        atomMatcher
-		mustEval bool // the guard must be evaluated on every path to accept
+		mustEval bool // the guard must be evaluated on every path to accept (unconditional guard)
 		why      string
 	}
 	limit := func(name string) func(ast.Expr) bool {
@@ -361,7 +361,9 @@ func c15Checker(c *Ctx, f *Fn, isZip bool) {
 		)
 	}
 	for _, gs := range gates {
-		r := g.gate(gs.m, accept, barrier, body)
+		// guards that apply to particular names only (size limits, cue.mod
+		// placement) may be qualified by those name tests: conditional reading
+		r := g.gateMode(gs.m, accept, barrier, body, !gs.mustEval)
 		ok := r.found && !r.leak && (!gs.mustEval || !r.bypass)
 		det := gs.why
 		switch {
